@@ -652,6 +652,7 @@ pub mod binary_connection {
 //@endfn
 
 //@fn protocol/binary_connection.rs | impl MemcacheBinaryConnection | read_frame | ret=r | async | safety=C10,C09,C13 | sigsub=Result<Option<BinaryRequest>, io::Error>=>core::result::Result<Option<BinaryRequest>, io::Error>
+//@locals _extras_length,body_length,buffered
         requires
             conn_inv(*old(self)), !old(self).stream.shut(),
         ensures
@@ -666,7 +667,7 @@ pub mod binary_connection {
                     self.stream.sent() == old(self).stream.sent(),
                     stream_of(*self) =~= stream_of(*old(self)),
                 decreases self.stream.wire().len(),   // C10: every iteration returns or consumes at least one wire byte
-//@proof 0 | let _extras_length: u32 = 8;
+//@proof 0 | <start>
         hide(decode_post); hide(first_frame); hide(pend); hide(canon_p); hide(hdr_enc); hide(hdr_of);
 //@proof 0 | if let Some(frame) = self.codec.decode(&mut self.buffer)? {
                 let ghost c0 = self.codec; let ghost b0 = self.buffer@; let ghost w0 = self.stream.wire();
@@ -691,7 +692,8 @@ pub mod binary_connection {
                 proof { lemma_rf_exit_eof(p0, w0, limit); }
 //@endfn
 
-//@fn protocol/binary_connection.rs | impl MemcacheBinaryConnection | skip_bytes | ret=r | async | safety=C10,C13,C09
+//@fn protocol/binary_connection.rs | impl MemcacheBinaryConnection | skip_bytes | ret=r | async | safety=C10,C13,C09 | attr=#[verifier::loop_isolation(false)]
+//@locals buffer_size,buffer,bytes_read,bytes_counter,difference
         requires
             !old(self).stream.shut(),
         ensures
@@ -782,6 +784,8 @@ pub mod client_handler {
         }
     }
 
+//@include lemmas/session.rs
+
     impl Client {
 //@fn memcache_server/client_handler.rs | impl Client | new | ret=r | safety=C10 | sigsub=Arc<storage::MemcStore>=>storage::MemcStore | sigsub=Arc<Semaphore>=>Semaphore
         ensures
@@ -790,20 +794,45 @@ pub mod client_handler {
 //@endfn
 
 //@fn memcache_server/client_handler.rs | impl Client | handle | async | safety=C10,C12 | attr=#[verifier::exec_allows_no_decreases_clause]
+//@locals client_close
         requires
             cl_inv(*old(self)), !old(self).stream.stream.shut(),
         ensures
             storage::mc_inv(final(self).handler.storage), // @ob C18 client.handle.store_consistent_at_exit
+            // C12/C18 for the whole connection: see specs/lemmas/session.rs
+            session_ok(*old(self), *final(self), conn_limit(old(self).stream)), // @ob C12,C18,C09 client.handle.session
 //@loop 0
             invariant
                 cl_inv(*self), !self.stream.stream.shut(),     // C12: the loop only continues on a connection that has not been closed
                 conn_limit(self.stream) == conn_limit(old(self).stream),
-//@proof 0 | loop {
+                lim == conn_limit(old(self).stream),
+                session_inv(g_steps, g_sts, g_ress, *old(self), *self, lim),
+//@proof 0 | <start>
         hide(rf_post); hide(request_post); hide(first_frame); hide(handle_post); hide(loud_post); hide(canon_p); hide(hdr_enc); hide(stream_of); hide(req_wf);
+        hide(session_inv); hide(session_ok); hide(session_end); hide(step_done); hide(step_cut); hide(frames); hide(run_ok); hide(chain); hide(flat);
+        let ghost lim = conn_limit(self.stream);
+        let ghost mut g_steps: Seq<Step> = Seq::<Step>::empty();
+        let ghost mut g_sts: Seq<Seq<u8>> = seq![stream_of(self.stream)];
+        let ghost mut g_ress: Seq<core::result::Result<Option<BinaryRequest>, io::Error>> = Seq::<core::result::Result<Option<BinaryRequest>, io::Error>>::empty();
+        proof { lemma_session_start(*self, lim); }
 //@proof 0 | match timeout(
-            let ghost s_before = stream_of(self.stream); let ghost lim = conn_limit(self.stream);
+            let ghost s_before = stream_of(self.stream); let ghost c_a = *self;
 //@proof 0 | let client_close = self.handle_frame(req_or_none);
+                    let ghost c_b = *self;
                     proof { if req_or_none is Ok && req_or_none->Ok_0 is Some { lemma_rf_wf(s_before, lim, req_or_none, stream_of(self.stream)); } }
+//@proofafter 0 | let client_close = self.handle_frame(req_or_none);
+                    proof {
+                        if req_or_none is Ok && req_or_none->Ok_0 is Some {
+                            let st = lemma_session_step(g_steps, g_sts, g_ress, *old(self), c_a, c_b, *self, req_or_none, client_close, lim);
+                            if !client_close {
+                                g_steps = g_steps.push(st); g_sts = g_sts.push(stream_of(c_b.stream)); g_ress = g_ress.push(req_or_none);
+                            }
+                        } else {
+                            lemma_session_stop(g_steps, g_sts, g_ress, *old(self), c_a, *self, lim);
+                        }
+                    }
+//@proof 1 | return;
+                    proof { lemma_session_stop(g_steps, g_sts, g_ress, *old(self), c_a, *self, lim); }
 //@endfn
 
 //@fn memcache_server/client_handler.rs | impl Client | handle_frame | ret=r | async | safety=C10,C12,C18 | sigsub=Result<Option<BinaryRequest>, io::Error>=>core::result::Result<Option<BinaryRequest>, io::Error>
